@@ -30,12 +30,20 @@ def gen_forests(family, n, wd, shards=8, pinned=None):
 
 
 def to_gen_forest(fj):
-    """Model forest (JSON from TLC) -> dwarfgen forest.  DIE ids are 1-based indexes."""
+    """Model forest (JSON from TLC) -> dwarfgen forest.  DIE ids are 1-based indexes.  Units with file = 1 go to
+    the dwz alt file; a reference from the main file into it is stored as DW_FORM_GNU_ref_alt."""
     dies = fj["die"]
     nextsib = {}
     for dd in dies:
         for a, b in zip(dd["kids"], dd["kids"][1:]):
             nextsib[a] = b
+    fileof = {}
+    def mark(i, f):
+        fileof[i] = f
+        for k in dies[i - 1]["kids"]:
+            mark(k, f)
+    for u in fj["units"]:
+        mark(u["root"], u.get("file", 0))
     def die(i):
         d = dies[i - 1]
         attrs = []
@@ -48,19 +56,29 @@ def to_gen_forest(fj):
             elif n == "sibling": v = r if r else nextsib.get(i, i)
             elif n == "type": v = r if r else i
             else: v = 0
+            if n in ("import", "spec", "orig") and fileof.get(v, 0) != fileof.get(i, 0):
+                f = "GNU_ref_alt"
             attrs.append({"name": ATN[n], "form": f, "value": v})
         return {"id": i, "tag": TAG[d["tag"]], "children": [die(k) for k in d["kids"]], "has_children": d["hc"],
                 "attrs": attrs}
-    units = []
+    units, alt = [], []
     for ui, u in enumerate(fj["units"]):
-        units.append({"kind": u["kind"], "version": u["ver"], "table": ui, "root": die(u["root"])})
-    return {"units": units}
+        rec = {"kind": u["kind"], "version": u["ver"], "table": ui, "root": die(u["root"])}
+        (alt if u.get("file", 0) else units).append(rec)
+    out = {"units": units}
+    if alt:
+        out["alt_units"] = alt
+    return out
+
+
+ALTBIT = 1 << 40       # a DIE of the dwz alt file is identified by its offset with this bit set
 
 
 class Built:
     def __init__(self, path, offs):
         self.path = path
         self.off = {int(k[4:]): v for k, v in offs.items() if k.startswith("die_")}
+        self.off.update({int(k[8:]): v | ALTBIT for k, v in offs.items() if k.startswith("alt_die_")})
         self.unit_off = {int(k[5:]): v for k, v in offs.items() if k.startswith("unit_")}
         self.rev = {v: k for k, v in self.off.items()}
 
@@ -76,7 +94,15 @@ def build_all(vecs, wd, prefix):
 
 def die_id(b, val):
     """(die id, chain ids) of a DIE value printed by the driver."""
-    return (b.rev.get(val["off"], -val["off"]), tuple(b.rev.get(x, -x) for x in val.get("imp", [])))
+    off = val["off"] | (ALTBIT if val.get("alt") else 0)
+    return (b.rev.get(off, -off), tuple(b.rev.get(x, -x) for x in val.get("imp", [])))
+
+
+def ident(b, val):
+    """The id of the DIE that a driver value denotes: a DIE value, or (main file only) its offset as a constant."""
+    if val["t"] == "die":
+        return die_id(b, val)[0]
+    return b.rev.get(cst(val), -1)
 
 
 def run_queries(drv, jobs, wd, tag):
